@@ -387,7 +387,8 @@ def run(chk):
     chk.guard('C08.PC', c08.check_counter, chk)
     chk.guard('C08.L', c08.check_labels, chk)
     chk.guard('C08.J', c08.check_truthiness, chk)
-    chk.guard('C08.R', c08.check_return_function, chk)
+    chk.rule('C08.E', 'shared with C08: abstract execution of the statement loop over small jump-level models')
+    chk.guard('C08.E', c08.check_step, chk)
     chk.guard('C04.W', c04.check_assignment, chk)
     chk.guard('C04.F', c04.check_frames, chk)
     chk.guard('C04.R', c04.check_function_statement, chk)
